@@ -90,6 +90,26 @@ func ZZ_C12_aud_default() {
 	zz.Assert(got == want, "DefaultAudienceMatchingStrategy == reference (scheme, host, whole-segment path prefix)")
 }
 
+// ZZ_C12_aud_default_lists: the quantifier structure of the default strategy over LISTS of requested audiences:
+// every requested audience must be covered, whatever its position in the list.
+func ZZ_C12_aud_default_lists() {
+	hay := []string{"https://api.example/v1", "https://files.example"}
+	pool := []string{"https://api.example/v1/users", "https://other.example/v1", "https://files.example/a/b", "https://api.example/v2"}
+	covered := []bool{true, false, true, false}
+	n := 1 + zz.Choice("n", 3)
+	var needles []string
+	want := true
+	for i := 0; i < n; i++ {
+		k := zz.Choice("needle", len(pool))
+		needles = append(needles, pool[k])
+		want = want && covered[k]
+	}
+	got := DefaultAudienceMatchingStrategy(hay, needles) == nil
+	zz.Observe("got", got)
+	zz.Assert(got == want, "DefaultAudienceMatchingStrategy: every requested audience is covered by a whitelisted one (all positions)")
+	zz.Cover("lists:uncovered-not-last", !want && covered[0] == covered[0] && !got)
+}
+
 // ZZ_C12_aud_lists: quantifier structure over lists (every requested audience must be covered by some
 // whitelisted one; nothing requested is always fine), with plain symbolic strings under the exact strategy.
 func ZZ_C12_aud_exact() {
